@@ -320,6 +320,13 @@ func (r *runT) step(s stepT) {
 			binary.LittleEndian.PutUint32(f[4:], 7)
 		case "huge":
 			binary.LittleEndian.PutUint32(f[4:], 0x7fffffff)
+		case "hdr8", "hdr9", "hdr11", "hdr12", "hdr15":
+			// a complete frame that ends inside (or right behind) the 12-byte message header
+			n := map[string]int{"hdr8": 8, "hdr9": 9, "hdr11": 11, "hdr12": 12, "hdr15": 15}[raw.Size]
+			if n < len(f) {
+				f = f[:n]
+			}
+			binary.LittleEndian.PutUint32(f[4:], uint32(len(f)))
 		}
 		o.class("raw:type=%s", strings.ToUpper(mt))
 		o.class("raw:chunk=%q", string(rune(ct)))
